@@ -90,8 +90,8 @@ def patterns(max_tokens):
             p = "".join(combo)
             if "//" in p or p.startswith("/") or p.endswith("/") or "***" in p:
                 continue
-            if any(part == "." for part in p.split("/")):
-                continue  # StepUp passes normalised patterns: no `.` path component
+            if any(part and set(part) == {"."} for part in p.split("/")):
+                continue  # StepUp passes normalised patterns: no `.` / `..` (or dots-only) path component
             if "**" in p:
                 # `**` is only meaningful as a whole path component
                 if any(("**" in part and part != "**") for part in p.split("/")):
@@ -250,7 +250,20 @@ def run_incremental(ng_mod, pattern, old_tree, new_tree, root_old, root_new):
     return []
 
 
-def kind_of(f):
+def kind_of(f, pattern=""):
+    k = _kind_of(f)
+    if k != "nonexistent-directory-recorded" and "/" in pattern:
+        tail = pattern.rsplit("/", 1)[-1]
+        paths = [x for key in ("recorded_only", "accepted_only", "glob_only", "expected_only", "incremental_only", "rescan_only",
+                               "anonymous_only", "named_only") for x in f.get(key, [])]
+        if paths and all(x.endswith("/") for x in paths) and re.fullmatch(r"(\*|\$\{\*\w+\})+", tail):
+            # the last component of the pattern can be empty, so the regular expression accepts a directory `d/` through
+            # the pattern's own separator, while a scan looks for entries inside `d/`
+            return "directory-through-separator"
+    return k
+
+
+def _kind_of(f):
     """Classify a discrepancy: a directory that the reference has and the recorded set lacks (and nothing else), a
     directory recorded although it does not exist (and nothing else), or any other mismatch."""
     extra = f.get("recorded_only", []) or f.get("incremental_only", [])
@@ -281,13 +294,13 @@ def _work(args):
             for k, t in enumerate(tree_list):
                 os.chdir(roots[k])
                 for f in run_case(ng_mod, roots[k], p, t):
-                    fails.append(dict(kind=kind_of(f), pattern=p, tree=sorted(t), **f))
+                    fails.append(dict(kind=kind_of(f, p), pattern=p, tree=sorted(t), **f))
                 n += 1
             if do_incremental:
                 for _ in range(3):
                     i, j = rnd.randrange(len(tree_list)), rnd.randrange(len(tree_list))
                     for f in run_incremental(ng_mod, p, tree_list[i], tree_list[j], roots[i], roots[j]):
-                        fails.append(dict(kind=kind_of(f), pattern=p, old_tree=sorted(tree_list[i]), new_tree=sorted(tree_list[j]), **f))
+                        fails.append(dict(kind=kind_of(f, p), pattern=p, old_tree=sorted(tree_list[i]), new_tree=sorted(tree_list[j]), **f))
                     n += 1
             if len(fails) > 200:
                 break
@@ -306,7 +319,9 @@ def compilers_and_filesystem(tier, seed):
     import multiprocessing
 
     ntok = 3 if tier == "quick" else 4
-    pats = list(patterns(ntok))
+    # longer patterns that are kept in every tier because a tier above found something with them
+    extra = ["${*m}${*n}/${*m}", "a/${*n}${*m}", "b/**/a", "**/${*n}${*n}"]
+    pats = list(patterns(ntok)) + [p for p in extra if p not in set(patterns(ntok))]
     tree_list = trees(2 if tier == "quick" else 3)
     if tier == "quick":
         tree_list = tree_list[:24]
